@@ -447,4 +447,196 @@ theorem exclude_imports_order_counterexample :
     checkX true .v1 "PACKAGE" xCur xPrev = [⟨"PACKAGE_NO_DELETE", "", []⟩] := by
   decide
 
+/-! ### the category order PER FIELD (subject level) for the three type rules
+
+    `hierarchy` says "stricter category clean ⇒ laxer category clean" for the pair of schemas as a
+    whole.  For the type family FIELD_SAME_TYPE (FILE, PACKAGE) ⇐ FIELD_WIRE_JSON_COMPATIBLE_TYPE
+    (WIRE_JSON) ⇐ FIELD_WIRE_COMPATIBLE_TYPE (WIRE) the order holds at every single FIELD PAIR: the
+    three rules are `fieldPairs` of the three bodies below (`type_rules_are_per_field`), each body
+    only ever produces an annotation of the CURRENT field `c` (`type_annotations_are_about_the_field`),
+    and for one and the same pair `(c, p)` a laxer body that reports forces the stricter body to
+    report (`type_rules_ordered_per_field`).  This is the statement the C04 harness checks per
+    subject on every pair of the edit catalogue; `same_type_skipping_groups_counterexample` is the
+    regression it was built for. -/
+
+/-- body of handleBreakingFieldSameType for one field pair -/
+def sameTypeAt (c p : FlatField) : List Ann :=
+  if p.field.kind ≠ c.field.kind then [changedTypeAnn "FIELD_SAME_TYPE" c]
+  else if c.field.ty.named ∧ p.field.typeName ≠ c.field.typeName then
+    [changedTypeNameAnn "FIELD_SAME_TYPE" c]
+  else []
+
+/-- body of handleBreakingFieldWireJSONCompatibleType for one field pair -/
+def wireJsonTypeAt (cur prev : Schema) (c p : FlatField) : List Ann :=
+  if p.field.kind.wireJsonGroup ≠ c.field.kind.wireJsonGroup then [changedTypeAnn "FIELD_WIRE_JSON_COMPATIBLE_TYPE" c]
+  else if c.field.kind = .enum then
+    if p.field.typeName ≠ c.field.typeName then enumWireCompatible "FIELD_WIRE_JSON_COMPATIBLE_TYPE" cur prev c p else []
+  else if c.field.kind = .group ∨ c.field.kind = .message then
+    if p.field.typeName ≠ c.field.typeName then [changedTypeNameAnn "FIELD_WIRE_JSON_COMPATIBLE_TYPE" c] else []
+  else []
+
+/-- body of handleBreakingFieldWireCompatibleType for one field pair -/
+def wireTypeAt (cur prev : Schema) (c p : FlatField) : List Ann :=
+  if p.field.kind.wireGroup ≠ c.field.kind.wireGroup then
+    if p.field.kind = .string ∧ c.field.kind = .bytes then [] else [changedTypeAnn "FIELD_WIRE_COMPATIBLE_TYPE" c]
+  else if c.field.ty = .enum then
+    if p.field.typeName ≠ c.field.typeName then enumWireCompatible "FIELD_WIRE_COMPATIBLE_TYPE" cur prev c p else []
+  else if c.field.ty = .group ∨ c.field.ty = .message then
+    if p.field.typeName ≠ c.field.typeName then [changedTypeNameAnn "FIELD_WIRE_COMPATIBLE_TYPE" c] else []
+  else []
+
+/-- the three rules of the model ARE these bodies run over the field pairs -/
+theorem type_rules_are_per_field (cur prev : Schema) :
+    ruleFieldSameType cur prev = fieldPairs cur prev sameTypeAt ∧
+    ruleFieldWireJsonCompatibleType cur prev = fieldPairs cur prev (wireJsonTypeAt cur prev) ∧
+    ruleFieldWireCompatibleType cur prev = fieldPairs cur prev (wireTypeAt cur prev) :=
+  ⟨rfl, rfl, rfl⟩
+
+theorem enumWireCompatible_about_field (r : String) (cur prev : Schema) (c p : FlatField) :
+    ∀ a ∈ enumWireCompatible r cur prev c p, a = changedTypeNameAnn r c := by
+  intro a ha
+  unfold enumWireCompatible at ha
+  split at ha
+  · split at ha
+    · simpa using ha
+    · split at ha
+      · simpa using ha
+      · simp at ha
+  · simp at ha
+
+/-- whatever one of the three bodies reports for the pair `(c, p)` is an annotation of the CURRENT
+    field `c`: its type / type-name location (`changedTypeAnn`, `changedTypeNameAnn`) -/
+theorem type_annotations_are_about_the_field (cur prev : Schema) (c p : FlatField) :
+    (∀ a ∈ sameTypeAt c p, a = changedTypeAnn "FIELD_SAME_TYPE" c ∨ a = changedTypeNameAnn "FIELD_SAME_TYPE" c) ∧
+    (∀ a ∈ wireJsonTypeAt cur prev c p, a = changedTypeAnn "FIELD_WIRE_JSON_COMPATIBLE_TYPE" c ∨
+      a = changedTypeNameAnn "FIELD_WIRE_JSON_COMPATIBLE_TYPE" c) ∧
+    (∀ a ∈ wireTypeAt cur prev c p, a = changedTypeAnn "FIELD_WIRE_COMPATIBLE_TYPE" c ∨
+      a = changedTypeNameAnn "FIELD_WIRE_COMPATIBLE_TYPE" c) := by
+  refine ⟨?_, ?_, ?_⟩
+  · intro a ha
+    unfold sameTypeAt at ha
+    split at ha
+    · exact Or.inl (by simpa using ha)
+    · split at ha
+      · exact Or.inr (by simpa using ha)
+      · simp at ha
+  · intro a ha
+    unfold wireJsonTypeAt at ha
+    split at ha
+    · exact Or.inl (by simpa using ha)
+    · split at ha
+      · split at ha
+        · exact Or.inr (enumWireCompatible_about_field _ cur prev c p a ha)
+        · simp at ha
+      · split at ha
+        · split at ha
+          · exact Or.inr (by simpa using ha)
+          · simp at ha
+        · simp at ha
+  · intro a ha
+    unfold wireTypeAt at ha
+    split at ha
+    · split at ha
+      · simp at ha
+      · exact Or.inl (by simpa using ha)
+    · split at ha
+      · split at ha
+        · exact Or.inr (enumWireCompatible_about_field _ cur prev c p a ha)
+        · simp at ha
+      · split at ha
+        · split at ha
+          · exact Or.inr (by simpa using ha)
+          · simp at ha
+        · simp at ha
+
+/-- FILE ⊇ PACKAGE ⊇ WIRE_JSON ⊇ WIRE at the level of ONE field pair, for the type family: if the
+    WIRE rule reports about `(c, p)` so does the WIRE_JSON rule, and if that one reports so does
+    FIELD_SAME_TYPE - for every pair of schemas, every pair of fields, with the compiled-image
+    hypothesis on the current field only (`kindOk`: Kind() = Type() except delimited messages). -/
+theorem type_rules_ordered_per_field (cur prev : Schema) (c p : FlatField) (hok : kindOk c.field) :
+    (wireTypeAt cur prev c p ≠ [] → wireJsonTypeAt cur prev c p ≠ []) ∧
+    (wireJsonTypeAt cur prev c p ≠ [] → sameTypeAt c p ≠ []) := by
+  constructor
+  · intro hx
+    unfold wireTypeAt at hx
+    unfold wireJsonTypeAt
+    by_cases hj : p.field.kind.wireJsonGroup ≠ c.field.kind.wireJsonGroup
+    · simp [hj]
+    · have hw : ¬ p.field.kind.wireGroup ≠ c.field.kind.wireGroup := fun hw => hj (kind_refine _ _ hw)
+      simp only [hw, hj, if_false] at hx ⊢
+      by_cases he : c.field.ty = .enum
+      · have hke : c.field.kind = .enum := by
+          rcases hok with h1 | ⟨h1, _⟩
+          · rw [h1, he]
+          · rw [he] at h1; cases h1
+        simp only [he, hke, if_true] at hx ⊢
+        by_cases ht : p.field.typeName ≠ c.field.typeName
+        · rw [if_pos ht] at hx ⊢
+          exact enumWireCompatible_rule_irrelevant _ _ cur prev c p hx
+        · simp [ht] at hx
+      · simp only [he, if_false] at hx
+        by_cases hg : c.field.ty = .group ∨ c.field.ty = .message
+        · simp only [hg, if_true] at hx
+          have hkg : c.field.kind = .group ∨ c.field.kind = .message := by
+            rcases hok with h1 | ⟨_, h2⟩
+            · rw [h1]; exact hg
+            · exact Or.inl h2
+          have hkne : c.field.kind ≠ .enum := by
+            rcases hkg with h1 | h1 <;> rw [h1] <;> decide
+          simp only [hkne, hkg, if_false, if_true]
+          by_cases ht : p.field.typeName ≠ c.field.typeName
+          · simp [ht]
+          · simp [ht] at hx
+        · simp [hg] at hx
+  · intro hx
+    unfold wireJsonTypeAt at hx
+    unfold sameTypeAt
+    by_cases hkind : p.field.kind ≠ c.field.kind
+    · simp [hkind]
+    · have hkeq : p.field.kind = c.field.kind := Classical.not_not.1 hkind
+      have hj : ¬ p.field.kind.wireJsonGroup ≠ c.field.kind.wireJsonGroup := by rw [hkeq]; simp
+      simp only [hj, hkind, if_false] at hx ⊢
+      have named : (c.field.kind = .enum ∨ c.field.kind = .group ∨ c.field.kind = .message) →
+          c.field.ty.named = true := by
+        intro hcase
+        rcases hok with h1 | ⟨h1, _⟩
+        · rw [← h1]; rcases hcase with h2 | h2 | h2 <;> rw [h2] <;> decide
+        · rw [h1]; decide
+      by_cases he : c.field.kind = .enum
+      · simp only [he, if_true] at hx
+        by_cases ht : p.field.typeName ≠ c.field.typeName
+        · simp [named (Or.inl he), ht]
+        · simp [ht] at hx
+      · simp only [he, if_false] at hx
+        by_cases hg : c.field.kind = .group ∨ c.field.kind = .message
+        · simp only [hg, if_true] at hx
+          by_cases ht : p.field.typeName ≠ c.field.typeName
+          · simp [named (Or.inr hg), ht]
+          · simp [ht] at hx
+        · simp [hg] at hx
+
+/-- the regression: FIELD_SAME_TYPE switching on the resolved `Kind()` with arms for enum and
+    message only - the type NAME of a delimited ("group" encoded) message field is not compared -/
+def sameTypeAtSkippingGroups (c p : FlatField) : List Ann :=
+  if p.field.kind ≠ c.field.kind then [changedTypeAnn "FIELD_SAME_TYPE" c]
+  else if (c.field.kind = .enum ∨ c.field.kind = .message) ∧ p.field.typeName ≠ c.field.typeName then
+    [changedTypeNameAnn "FIELD_SAME_TYPE" c]
+  else []
+
+/-- Field 1 of `g.M` (witness `gPrev → gCur`: edition 2023, delimited by the FILE default on both
+    sides, type `g.X` → `g.Y`): the WIRE and WIRE_JSON bodies report the field's type name, the
+    coded FIELD_SAME_TYPE body does too, the regressed one is silent - FILE and PACKAGE would be
+    clean for this field while WIRE_JSON and WIRE are not. -/
+theorem same_type_skipping_groups_counterexample :
+    wireTypeAt W.gCur W.gPrev (W.fieldOf W.gcM 1) (W.fieldOf W.gpM 1) =
+      [⟨"FIELD_WIRE_COMPATIBLE_TYPE", "g/e.proto", [4, 0, 2, 1, 6]⟩] ∧
+    wireJsonTypeAt W.gCur W.gPrev (W.fieldOf W.gcM 1) (W.fieldOf W.gpM 1) =
+      [⟨"FIELD_WIRE_JSON_COMPATIBLE_TYPE", "g/e.proto", [4, 0, 2, 1, 6]⟩] ∧
+    sameTypeAt (W.fieldOf W.gcM 1) (W.fieldOf W.gpM 1) = [⟨"FIELD_SAME_TYPE", "g/e.proto", [4, 0, 2, 1, 6]⟩] ∧
+    sameTypeAtSkippingGroups (W.fieldOf W.gcM 1) (W.fieldOf W.gpM 1) = [] := by
+  decide
+
+/-- `type_rules_ordered_per_field` is not vacuous on that pair -/
+example : kindOk (W.fieldOf W.gcM 1).field := Or.inr ⟨by decide, by decide⟩
+
 end BufProofs.C04
